@@ -26,7 +26,7 @@ ACCESS = {
     'lambda': 'return ((lambda q: h(q))(3),)',
     'indirect_alias': 'return (k2(4),)',
 }
-DEF_PLACES = ['before', 'both_branches', 'in_loop_redefined']
+DEF_PLACES = ['before', 'both_branches', 'in_loop_redefined', 'redefined_other_freevar', 'both_branches_other_freevar']
 
 
 def indent(text, n=1):
@@ -40,13 +40,22 @@ def build(construct, write, access, place):
     L.append(indent(hdef))
   elif place == 'both_branches':
     L.append(indent('if c > 0:\n    u = 2\n    u = u + 1\n' + indent(hdef) + '\nelse:\n' + indent('def h(p):\n    return p + v + 100')))
-  else:
+  elif place == 'in_loop_redefined':
     L.append(indent(hdef))
     L.append(indent('for j in range(2):\n    u = u + h(j)\n' + indent('def h(p):\n    return p + v + j')))
+  elif place == 'redefined_other_freevar':
+    # two local functions of the same name with different free variables; the first stays reachable through an alias
+    L.append(indent(hdef))
+    L.append(indent('hfirst = h'))
+    L.append(indent('def h(p):\n    return p + u + 50'))
+  else:
+    L.append(indent('if c > 0:\n' + indent(hdef) + '\nelse:\n' + indent('def h(p):\n    return p + u + 100')))
   L.append(indent('def g(p):\n    return h(p) + 1'))
-  L.append(indent('k = h'))
+  L.append(indent('k = hfirst' if place == 'redefined_other_freevar' else 'k = h'))
   L.append(indent('k2 = g'))
-  L.append(indent('def setv(p):\n    nonlocal v\n    v = p\n    return p'))
+  if write == 'via_nonlocal_writer':
+    # only where it is used: a reaching function that declares v nonlocal keeps v live everywhere by itself
+    L.append(indent('def setv(p):\n    nonlocal v\n    v = p\n    return p'))
   L.append(indent(CONSTRUCTS[construct].replace('WRITE', WRITES[write])))
   L.append(indent(ACCESS[access]))
   return '\n'.join(L) + '\n'
@@ -58,6 +67,6 @@ INPUTS = ['(1, 2, 1, [1, 3, 0], Obj(0, 0), {"k": 0, "m": 0})', '(0, 0, 0, [], Ob
 
 def cases(pure=False):
   for c, w, a, p in itertools.product(sorted(CONSTRUCTS), sorted(WRITES), sorted(ACCESS), DEF_PLACES):
-    if pure and (w == 'via_nonlocal_writer' or p != 'before'):
+    if pure and (w == 'via_nonlocal_writer' or p not in ('before', 'redefined_other_freevar')):
       continue
     yield 'closure/%s/%s/%s/%s' % (c, w, a, p), grammar.PREAMBLE + build(c, w, a, p), INPUTS
